@@ -67,7 +67,7 @@ def compare(ctx, r0, r1, perm, acts, guard):
     if r0.ok != r1.ok or (not r0.ok and r0.describe() != r1.describe()):
         ctx.violation("solvability/outcome changes under renaming: %s vs %s" % (r0.describe(), r1.describe()), inp)
         return
-    if not r0.ok or guard == "any":
+    if not r0.ok or guard == "any" or r0.op != "solve" or r1.op != "solve":
         return
     tolp = 1e-12 if guard == "exact" else 1e-4
     tolr = 1e-9 if guard == "exact" else 1e-4
